@@ -45,7 +45,7 @@ fn gen_sref(rng: &mut Rng) -> SRef {
 fn gen_cmd(rng: &mut Rng) -> Cmd {
     match rng.weighted(&[10, 8, 4, 4, 22, 8, 8, 8, 10, 3, 3, 6, 6]) {
         0 => Cmd::Open {
-            variant: if rng.chance(3, 5) { 0 } else { 1 + rng.below(9) as u8 },
+            variant: if rng.chance(3, 5) { 0 } else { 1 + rng.below(15) as u8 },
             sort: rng.chance(1, 4),
             collect: (*rng.pick(&["true", "true", "true", "\"all\"", "false", "\"none\"", "\"one_pass_streams\""])).to_string(),
         },
@@ -201,7 +201,12 @@ pub fn check_transcript(s: &Session, t: &Transcript, ctx: &mut Ctx) -> Result<()
                 ctx.probe(if is_ok { "replies_ok" } else if is_err { "replies_err" } else { "replies_unknown_command" });
                 // ---- session model
                 let expect: Option<bool> = match cmd {
-                    Cmd::Open { variant, .. } => Some(*variant == 0 && !open),
+                    Cmd::Open { variant, .. } => match *variant {
+                        0 | 10 | 11 => Some(!open),
+                        // other input formats / mixed inputs: accepted or refused, but answered; never while a file is open
+                        12..=15 => if open { Some(false) } else { None },
+                        _ => Some(false),
+                    },
                     Cmd::Close | Cmd::Pause | Cmd::Resume => Some(open),
                     Cmd::Stream { body, .. } => {
                         let (valid, one_pass) = body_props(body);
@@ -300,7 +305,15 @@ pub fn check_transcript(s: &Session, t: &Transcript, ctx: &mut Ctx) -> Result<()
                 // ---- state update from the reply
                 if is_ok {
                     match cmd {
-                        Cmd::Open { collect: c, .. } => {
+                        Cmd::Open { collect: c, variant, .. } => {
+                            match *variant {
+                                10 | 11 => ctx.probe("opens_two_dlt_files"),
+                                12 => ctx.probe("opens_logcat_file"),
+                                13 => ctx.probe("opens_asc_file"),
+                                14 => ctx.probe("opens_mixed_dlt_logcat"),
+                                15 => ctx.probe("opens_genlog_file"),
+                                _ => {}
+                            }
                             open = true;
                             collect = match c.as_str() {
                                 "false" | "\"none\"" | "\"false\"" => Collect::None,
@@ -438,7 +451,7 @@ impl Check for C15 {
         crate::lc::lc_finding_key(v)
     }
     fn rule() -> &'static str {
-        "one run = one websocket session against the real server functions: a simulated world (20-400 messages) written to a file, 1-26 commands drawn from a grammar over open/close/pause/resume/stream/query/stop/stream_change_window/stream_binary_search/stream_search/plugin_cmd/fs with valid bodies, every parameter individually missing, wrong types, malformed JSON, unknown/stale/garbage ids, commands before open and after close, double open, plus client-side waits; server and client are shuttle threads, the parser pipeline's channel bounds are overridden per run (so close arrives while stages are parked in full channels), the simulated clock tick varies how much the server drains per loop, the server's socket may deliver 1/7/100 bytes per read; non-trivial = more than one command; distinct = hash of (commands, trace length, schedule seed)"
+        "one run = one websocket session against the real server functions: a simulated world (20-400 messages) written to a file (some opens name two DLT files, a logcat, CAN-ASC or generic-log file or a DLT+logcat mix instead), 1-26 commands drawn from a grammar over open/close/pause/resume/stream/query/stop/stream_change_window/stream_binary_search/stream_search/plugin_cmd/fs with valid bodies, every parameter individually missing, wrong types, malformed JSON, unknown/stale/garbage ids, commands before open and after close, double open, plus client-side waits; server and client are shuttle threads, the parser pipeline's channel bounds are overridden per run (so close arrives while stages are parked in full channels), the simulated clock tick varies how much the server drains per loop, the server's socket may deliver 1/7/100 bytes per read; non-trivial = more than one command; distinct = hash of (commands, trace length, schedule seed)"
     }
     fn assumptions() -> Vec<&'static str> {
         vec![
@@ -455,6 +468,6 @@ impl Check for C15 {
         vec!["connection loop replica verif_serve (H2)", "in-memory duplex transport (SimStream)", "simulated clock / recv_timeout / sleep (seam)", "client (command generator + session model)"]
     }
     fn required_reach() -> Vec<&'static str> {
-        vec!["replies_ok", "replies_err", "replies_unknown_command", "opens", "closes", "streams_created", "window_changes", "try_send_full", "recv_timeout_timeout", "short_socket_reads"]
+        vec!["replies_ok", "replies_err", "replies_unknown_command", "opens", "closes", "streams_created", "window_changes", "try_send_full", "recv_timeout_timeout", "short_socket_reads", "opens_two_dlt_files", "opens_logcat_file", "opens_asc_file", "opens_genlog_file", "opens_mixed_dlt_logcat"]
     }
 }
